@@ -272,6 +272,7 @@ def splice(take, mode, mutant=None):
             text = text.replace("__verif_exit !();", get("exit"), 1)
         text = re.sub(r"__verif_stmt_(\d+) !\(\);", lambda m: get("after_stmt " + m.group(1)), text)
         text = re.sub(r"__verif_after_let_(\w+?)_(\d+) !\(\);", lambda m: get(f"after_let {m.group(1)} {m.group(2)}"), text)
+        text = re.sub(r"__verif_exit_reason_(\d+) !\(\)", lambda m: (get("exit_reason " + m.group(1)).strip() or "Ghost(ExitReason::Unstated)"), text)
         text = re.sub(r"__verif_qexit_(\d+) !\(\);", lambda m: get("qexit " + m.group(1)), text)
         text = re.sub(r"__verif_arm_(\d+) !\(\);", lambda m: get("arm " + m.group(1)), text)
         # after_call anchors; `__tail` in the section text names the value of a block tail that was bound to a temporary
